@@ -309,7 +309,7 @@ fn base_cases() -> Vec<Case> {
                         });
                         // a by-path source the application has already made read-only (or otherwise re-moded)
                         if auto_sync && !maintain && matches!(op, MOp::Set | MOp::Put) {
-                            for mode in [0o444u32, 0o400, 0o644, 0o640] {
+                            for mode in [0o444u32, 0o400, 0o644, 0o640, 0o664, 0o666, 0o606] {
                                 let mut c = out.last().unwrap().clone();
                                 c.source_mode = mode;
                                 out.push(c);
@@ -386,7 +386,7 @@ pub fn run(_tier: Tier, shard: Shard, rep: &mut Report) {
         in the secondary shard) x writer {plain, sharded} x value size {0 B, 1 B, 3 x 8 KiB} x maintenance {fires, does not} x \
         auto_sync {on, off as a control of the monitor}, the builder obtained by CacheBuilder::new(), by Default::default() and by \
         re-using a builder after take() (auto-sync never mentioned: it must default to on), by-path sources also handed over with \
-        mode 0444, 0400, 0644 and 0640; per published inode the trace must show last content event < successful \
+        mode 0444, 0400, 0644, 0640, 0664, 0666 and 0606; per published inode the trace must show last content event < successful \
         fsync < chmod stripping write bits <= publication, and no content/mode event afterwards. Then, for every auto_sync cell, each \
         fsync fails in turn with EIO and ENOSPC: the call must fail (or panic with the documented message for by-path set/put) and \
         that inode must never be published. Then every other call of each auto_sync cell fails in turn in every plausible way (short \
